@@ -11,6 +11,7 @@ import (
 	"go.amzn.com/lambda/extensions"
 	"go.amzn.com/lambda/rapi/handler"
 	"go.amzn.com/lambda/rapi/rendering"
+	"go.amzn.com/lambda/verifhook"
 
 	"github.com/go-chi/chi"
 	"go.amzn.com/lambda/appctx"
@@ -34,6 +35,7 @@ func AwsRequestIDValidator(next http.Handler) http.Handler {
 			rendering.RenderInvalidRequestID(w, r)
 			return
 		}
+		verifhook.Point("rapi.requestIDValidated")
 
 		next.ServeHTTP(w, r)
 	})
